@@ -68,7 +68,16 @@ def cli_configs(tier):
     b = {"B": 1100, "s": 2, "cols": ["id", "f1", "f2", "label"], "heuristic": "MI-numba-randomized", "target_only": "True",
          "seed": 12, "segments": [[4500, 4, 0]], "interaction_order": 1, "cap": 2 ** 15, "noise": "True",
          "extra_args": ["--mi_stratified_sampling_ratio", "0.5"]}       # the stratified sub-sampler is on the path
-    cfgs = [a, b]
+    # contention: 7 columns, interaction order 2 -> 22 columns -> 253 scored combinations per amap call, pool of 16,
+    # and one exact repeat (same threads, same PYTHONHASHSEED) whose table must be bit-identical
+    big = {"B": 600, "s": 1, "cols": ["id", "f1", "f2", "f3", "f4", "f5", "label"], "heuristic": "max-value-coverage",
+           "target_only": "False", "seed": 15, "segments": [[1300, 7, 0]], "interaction_order": 2, "cap": 2 ** 15, "noise": "False",
+           "matrix": [[1, 0], [16, 0], [16, 0], [4, 1], [8, 2]] if tier != "thorough" else
+                     [[1, 0], [2, 0], [4, 0], [8, 0], [16, 0], [16, 0], [16, 1], [3, 2]]}
+    if tier != "thorough":
+        a = dict(a, matrix=[[1, 0], [2, 1]])
+        b = dict(b, matrix=[[2, 0], [8, 2]])
+    cfgs = [big, a, b]
     if tier == "thorough":
         cfgs.append({"B": 500, "s": 1, "cols": ["id", "f1", "f2", "f3", "f4", "label"], "heuristic": "max-value-coverage",
                      "target_only": "False", "seed": 13, "segments": [[1700, 6, 0]], "interaction_order": 2, "cap": 2 ** 15,
@@ -106,7 +115,7 @@ def tables_equal(t1, t2):
             return False, False, "pairs %s vs %s" % (x[:2], y[:2])
         if not c08.close(x[2], y[2]):
             return False, False, "pair %s,%s: %r vs %r" % (x[0], x[1], x[2], y[2])
-    return False, True, "not bit-identical but within 1e-12"
+    return False, True, "not bit-identical (differs below 1e-12 relative): %r" % (next(((x, y) for x, y in zip(c1, c2) if x != y), None),)
 
 
 HEADER = ("From Coq Require Import List NArith ZArith.\n"
@@ -206,14 +215,16 @@ def check(run, replay):
                 run.violation("counterexample", "impl-raises under a harness pool", case=rcase, impl=r.get("error"),
                               model=r.get("traceback"), clause="the ranking task terminates normally for every completion order")
                 continue
-            if c is base_case or not base.get("ok") or not enc.finite:
+            if c is base_case or not base.get("ok"):
                 continue
+            if not enc.finite:
+                hist["non_finite_runs_compared_in_python_only"] = hist.get("non_finite_runs_compared_in_python_only", 0) + 1
             unordered = bool(spec.get("unordered"))
             if not unordered:
                 # the order-preserving map: identical triplet lists batch by batch (C09_run_ordered)
                 # (compared as multisets per batch: the order of the rows inside a batch is not an observable of the property)
-                tb = [sorted(map(tuple, b["triplets"] or [])) for b in base["batches"]]
-                tv = [sorted(map(tuple, b["triplets"] or [])) for b in r["batches"]]
+                tb = [sorted((x, y, repr(z)) for x, y, z in (b["triplets"] or [])) for b in base["batches"]]
+                tv = [sorted((x, y, repr(z)) for x, y, z in (b["triplets"] or [])) for b in r["batches"]]
                 if tb != tv:
                     j = next((j for j in range(min(len(tb), len(tv))) if tb[j] != tv[j]), min(len(tb), len(tv)))
                     d = None
@@ -226,10 +237,12 @@ def check(run, replay):
                 if base.get("pairwise") is not None or r.get("pairwise") is not None:
                     same, tol, d = tables_equal(base.get("pairwise") or [], r.get("pairwise") or [])
                     hist["bit_identical_pairs" if same else "within_tolerance_only"] += 1
-                    if not tol:
+                    if not same:
                         run.violation("counterexample", "correspondence(a): pairwise_ranks.tsv differs from the serial run", case=rcase,
                                       impl=d, clause="pairwise scores identical for every pool size and completion order")
                         continue
+            if not enc.finite:
+                continue            # rows and tables were compared above (text); the integer encoding for Coq needs finite scores
             calls = (r.get("schedules") or [])[:40]
             hist["amap_calls_checked"] += len(calls)
             exprs.append("(C09_schedules_ok [%s], same_multisetb %s %s, same_final_tableb %s %s)" % (
@@ -276,7 +289,10 @@ def check(run, replay):
         for r in rs[1:]:
             same, tol, d = tables_equal(ref["pairwise_text"], r["pairwise_text"])
             hist["bit_identical_pairs" if same else "within_tolerance_only"] += 1
-            if not tol:
+            if (r["threads"], r["hashseed"]) == (ref["threads"], ref["hashseed"]) or any(
+                    (r["threads"], r["hashseed"]) == (q["threads"], q["hashseed"]) for q in rs[:rs.index(r)]):
+                hist["exact_repeats"] = hist.get("exact_repeats", 0) + 1
+            if not same:
                 what = ("worker count %s vs %s" % (ref["threads"], r["threads"])) if r["hashseed"] == ref["hashseed"] else (
                     "PYTHONHASHSEED %s vs %s (threads %s vs %s)" % (ref["hashseed"], r["hashseed"], ref["threads"], r["threads"]))
                 run.violation("counterexample", "correspondence(b,c): pairwise_ranks.tsv differs between fresh runs", case=rcase,
@@ -290,7 +306,7 @@ def check(run, replay):
     run.cov["exhaustive"] = False
     run.cov["partial"] = ("the OS scheduler, pathos/multiprocess/dill and the purity of the per-pair scorer are not modelled; "
                           "they are exercised by the harness pools and by the real pools in fresh processes")
-    run.cov["tolerance"] = "tables are compared as text after a canonical sort; a difference within 1e-12 relative is recorded, not reported"
+    run.cov["tolerance"] = "none: tables are compared as text after a canonical sort and must be bit-identical (pool sizes, schedules, hash seeds, exact repeats)"
     run.samples = [groups[0][1]] if groups and len(groups[0]) > 1 else []
     if cli_groups:
         run.samples.append({"cli": cli_groups[0][0], "matrix": cli_matrix(run.tier) if replay is None else None})
